@@ -8,6 +8,7 @@ import (
 
 	"github.com/fxamacker/cbor/v2"
 	"github.com/taurusgroup/multi-party-sig/internal/round"
+	"github.com/taurusgroup/multi-party-sig/internal/safecbor"
 	"github.com/taurusgroup/multi-party-sig/pkg/hash"
 	"github.com/taurusgroup/multi-party-sig/pkg/party"
 )
@@ -489,12 +490,18 @@ func getRoundMessage(msg *Message, r round.Session) (round.Message, error) {
 	}
 
 	// unmarshal message
-	if err := cbor.Unmarshal(msg.Data, content); err != nil {
+	if err := safecbor.Unmarshal(msg.Data, content); err != nil {
 		return round.Message{}, fmt.Errorf("failed to unmarshal: %w", err)
+	}
+	// a message addressed to everyone is, for this party, a message to itself:
+	// rounds look up their own data with msg.To
+	to := msg.To
+	if to == "" && !msg.Broadcast {
+		to = r.SelfID()
 	}
 	roundMsg := round.Message{
 		From:      msg.From,
-		To:        msg.To,
+		To:        to,
 		Content:   content,
 		Broadcast: msg.Broadcast,
 	}
